@@ -266,6 +266,51 @@ theorem holdsLeader_model (rng : Nat → List (Nat × Nat)) (views : List (List 
       right
       rw [leader_perm_invariant rng v w (sameSet_iff v w hs)]
 
+private theorem mem_zip_self (l : List Nat) (q : Nat × Nat) (hq : q ∈ l.zip l) : q.1 = q.2 := by
+  induction l with
+  | nil => simp at hq
+  | cons x xs ih =>
+    simp only [List.zip_cons_cons, List.mem_cons] at hq
+    rcases hq with rfl | hq
+    · rfl
+    · exact ih hq
+
+/-- C22 (histories): a member's answer in a window does not depend on the windows it
+    coordinated before: the k-th election of a long-lived executor equals the election of a
+    member without any history, whatever was elected earlier. -/
+theorem leaderSeq_history_independent (pre post : List (Nat → List (Nat × Nat)))
+    (rng : Nat → List (Nat × Nat)) (ops : List Nat) :
+    (leaderSeq (pre ++ rng :: post) ops)[pre.length]? = some (getLeader rng ops) := by
+  simp [leaderSeq]
+
+/-- the seed of an election is only used through `rng` (A-rng): the seed is given separately
+    to the monitor to recognise repeated seeds; `rngOf` maps a seed to its swap table. -/
+theorem holdsLeaderSeq_model (rngOf : Nat → Nat → List (Nat × Nat)) (view : List Nat)
+    (seeds : List Nat) (hne : view ≠ []) :
+    let ls := seeds.map fun s => (getLeader (rngOf s) view).getD 0
+    holdsLeaderSeq view seeds ls ls = true := by
+  intro ls
+  simp only [holdsLeaderSeq, Bool.and_eq_true, beq_self_eq_true, true_and, List.all_eq_true,
+    Bool.or_eq_true, bne_iff_ne, ne_eq, beq_iff_eq, List.contains_iff_mem]
+  constructor
+  · intro l hl
+    simp only [ls, List.mem_map] at hl
+    obtain ⟨s, _, rfl⟩ := hl
+    obtain ⟨a, ha, hm⟩ := leader_mem (rngOf s) view hne
+    simpa [ha] using hm
+  · intro a ha b hb
+    have key : ∀ p ∈ seeds.zip ls, p.2 = (getLeader (rngOf p.1) view).getD 0 := by
+      intro p hp
+      simp only [ls, List.zip_map_right, List.mem_map] at hp
+      obtain ⟨q, hq, rfl⟩ := hp
+      have := List.of_mem_zip hq
+      simp only [Prod.map]
+      have hqq : q.1 = q.2 := mem_zip_self seeds q hq
+      simp [hqq]
+    by_cases e : a.1 = b.1
+    · right; rw [key a ha, key b hb, e]
+    · left; exact e
+
 theorem holdsChecklist_model (idx : Nat) (hb : Bool) :
     holdsChecklist idx hb (checklist idx hb) = true := by
   by_cases h : idx = 0
@@ -279,6 +324,9 @@ example : getLeader (fun _ => [(2, 0), (1, 1)]) [7, 3, 7, 5] = some 7 := by deci
 example : getLeader (fun _ => [(2, 0), (1, 1)]) [5, 5, 3, 7, 3] = some 7 := by decide
 example : holdsLeader [([1, 2], 1), ([2, 1, 1], 2)] = false := by decide
 example : holdsLeader [([1, 2], 3)] = false := by decide
+example : holdsLeaderSeq [1, 2, 3] [7, 8] [2, 3] [2, 1] = false := by decide
+example : holdsLeaderSeq [1, 2, 3] [7, 7] [2, 3] [2, 3] = false := by decide
+example : holdsLeaderSeq [1, 2, 3] [7, 8, 7] [2, 3, 2] [2, 3, 2] = true := by decide
 example : checklist 8 true = [3, 2, 5, 4, 1] := by decide
 example : holdsChecklist 8 false [3, 2, 5, 4, 1] = false := by decide
 example : holdsChecklist 7 false [3, 2, 5, 4] = false := by decide
